@@ -16,7 +16,7 @@
 //   conv T given rowlen n x1..xn                     -> <header scale> | stored numbers (decoded from the data file) | fail
 //   trunc offset size_all bytes file_length          -> ok | err  (does read_from_file succeed on the truncated data file; single image)
 //   offs nsets size_all bytes                        -> data offsets announced in the header of an Interfile dynamic / parametric image
-//   ctrunc nm size_all bytes file_length off_1..off_k -> ok | err  (Interfile dynamic / parametric image, data file truncated; nm = 1: modality NM)
+//   ctrunc dyn nm size_all bytes file_length off_1..off_k -> ok | err  (Interfile dynamic (dyn = 1) / parametric image, data file truncated; nm = 1: modality NM)
 //   mtrunc size_all bytes len_1..len_k               -> ok | err  (Multi image: lengths of the data files of the members, one of them truncated)
 //   exam <fields before> <db answer> <frames>        -> <fields after the round trip>   (header of an Interfile dynamic / parametric image)
 //   exams ...                                        -> same for a single image / member of a Multi image (first time frame only is kept)
@@ -163,7 +163,8 @@ static const char* K7_TEXT = "a single image whose exam information has more tha
 static const char* K8 = "values:scale-factor-is-a-subnormal-float:1.01-safety-margin-lost-and-reciprocal-overflows-under-ffast-math";
 static const char* K6_TEXT = "write_basic_interfile_image_header writes '!type of data := Tomographic' for modality NM, for which "
                              "InterfileHeader::set_type_of_data does not register the key 'data offset in bytes' (KeyParser: unrecognized keyword); "
-                             "read_interfile_dynamic_image / read_interfile_parametric_image then read every frame / parameter from offset 0";
+                             "read_interfile_parametric_image then reads every parameter from offset 0 (read_interfile_dynamic_image lets such a "
+                             "frame follow the previous one since 0e66b8adc and is not concerned any more)";
 
 // ------------------------------------------------------------------------------------------------ small helpers
 static std::string
@@ -1528,8 +1529,13 @@ container_case(vh::Rng& rng, const std::string& dir, long idx, bool parametric, 
       cleanup();
       return;
     }
-  // K6 (known finding) can only concern data sets > 1 of an Interfile container written for modality NM
-  const bool k6 = !multi && es.modality == ImagingModality::NM;
+  // K6 (known finding) can only concern data sets > 1 of a PARAMETRIC Interfile image written for modality NM
+  // (read_interfile_dynamic_image lets a frame without a parsed offset follow the previous one since repo commit 0e66b8adc:
+  // dynamic NM images are checked strictly)
+  const bool k6 = !multi && parametric && es.modality == ImagingModality::NM;
+  const bool nm_container = !multi && es.modality == ImagingModality::NM;
+  if (nm_container)
+    g_cover[parametric ? "container:NM-parametric-interfile" : "container:NM-dynamic-interfile-checked-strictly"]++;
   if (parametric)
     {
       check(rpar->get_num_params() == static_cast<unsigned>(nsets), "number of parameters changed");
@@ -1572,8 +1578,8 @@ container_case(vh::Rng& rng, const std::string& dir, long idx, bool parametric, 
         }
       exam_checks(dyn->get_exam_info(), rdyn->get_exam_info(), multi ? "" : "exam");
     }
-  // fault stream: every data file of the container
-  if (idx % 2 == 0)
+  // fault stream: every data file of the container (half of the cases; NOT by the parity of idx, which is that of `parametric`)
+  if (rng.coin())
     {
       for (int f = 1; f <= (multi ? nsets : 1); ++f)
         {
@@ -1601,13 +1607,15 @@ container_case(vh::Rng& rng, const std::string& dir, long idx, bool parametric, 
               }
             else
               {
-                op = std::string("ctrunc ") + (k6 ? "1" : "0") + " " + std::to_string(n) + " " + std::to_string(t.bytes) + " " + std::to_string(l);
+                op = std::string("ctrunc ") + (parametric ? "0" : "1") + " " + (nm_container ? "1" : "0") + " " + std::to_string(n) + " " + std::to_string(t.bytes) + " " + std::to_string(l);
                 for (int k = 1; k <= nsets; ++k)
                   op += " " + std::to_string(offsets[k - 1]);
               }
             return op;
           };
-          g_cover[multi ? "trunc-file:multi-member" : (k6 ? "trunc-file:interfile-container-NM" : "trunc-file:interfile-container")]++;
+          g_cover[multi ? "trunc-file:multi-member"
+                        : (nm_container ? (parametric ? "trunc-file:interfile-parametric-NM" : "trunc-file:interfile-dynamic-NM")
+                                        : "trunc-file:interfile-container")]++;
           if (parametric)
             truncation_stream<ParametricVoxelsOnCartesianGrid>(rng, fname, dnames[f - 1], marks, need, need_k6, t.bytes, thorough, op_of_len);
           else
